@@ -5,13 +5,6 @@ From MV Require Import Base.Bytes Model.View Proofs.ViewBase Proofs.ViewSpec Pro
   Proofs.ViewSteps Proofs.ViewSteps2 Proofs.ViewSteps3.
 Import ListNotations.
 
-(* a history all of whose calls satisfy the guard G in the state in which they are made *)
-Fixpoint guarded (G : state -> op -> Prop) (ops : list op) (s : state) : Prop :=
-  match ops with
-  | [] => True
-  | o :: t => G s o /\ match step o s with Ok s' => guarded G t s' | Err _ => True end
-  end.
-
 Lemma Inv_init : Inv init.
 Proof.
   constructor.
@@ -38,32 +31,18 @@ Proof.
   - destruct (step_ok o s I) as (s1 & E & P). rewrite E. apply IH. apply P.
 Qed.
 
-Lemma run_guarded (G : state -> op -> Prop) (Q : state -> Prop) :
-  (forall o s s', Inv s -> Q s -> G s o -> step o s = Ok s' -> Q s') ->
-  forall ops s s', Inv s -> Q s -> guarded G ops s -> run ops s = Ok s' -> Q s'.
+Lemma run_inv_all ops : forall s, Inv s -> M3 s -> FreshV s ->
+  exists s', run ops s = Ok s' /\ Inv s' /\ M3 s' /\ FreshV s'.
 Proof.
-  intros Hstep. induction ops as [|o t IH]; intros s s' I Hq Hg Hr; simpl in *.
-  - inversion Hr; subst. exact Hq.
-  - destruct Hg as [Hg1 Hg2]. destruct (step_ok o s I) as (s1 & E & P). rewrite E in *.
-    apply (IH s1 s'); auto; [apply P | eapply Hstep; eauto].
-Qed.
-
-Lemma run_inv_M3 ops : forall s, Inv s -> M3 s -> exists s', run ops s = Ok s' /\ Inv s' /\ M3 s'.
-Proof.
-  induction ops as [|o t IH]; intros s I H3; simpl.
+  induction ops as [|o t IH]; intros s I H3 Fv; simpl.
   - exists s. auto.
-  - destruct (step_ok o s I) as (s1 & E & P1 & P2 & _). rewrite E. apply IH; [exact P1 | apply P2; exact H3].
+  - destruct (step_ok o s I) as (s1 & E & P1 & P2 & P3 & _). rewrite E. apply IH; auto.
 Qed.
-Lemma run_M3 ops s : run ops init = Ok s -> M3 s.
+Lemma run_all ops s : run ops init = Ok s -> M3 s /\ FreshV s.
 Proof.
-  intros H. destruct (run_inv_M3 ops init Inv_init) as (s' & E & _ & A); [intros H0; discriminate|].
-  rewrite E in H. inversion H; subst. exact A.
-Qed.
-Lemma run_Fresh ops s : guarded fresh_ok ops init -> run ops init = Ok s -> Fresh s.
-Proof.
-  apply (run_guarded fresh_ok Fresh); [|apply Inv_init | intros id o k H; discriminate].
-  intros o s0 s' I Hq Hg E. destruct (step_ok o s0 I) as (s1 & E1 & P). rewrite E in E1. inversion E1; subst.
-  apply P; assumption.
+  intros H. destruct (run_inv_all ops init Inv_init) as (s' & E & _ & A & B);
+    [intros H0; discriminate | intros k id [] |].
+  rewrite E in H. inversion H; subst. auto.
 Qed.
 
 (* ---------- what the user sees ---------- *)
@@ -103,16 +82,16 @@ Proof.
     intros k id H. apply (c_cached _ C _ _ H).
 Qed.
 
-Lemma keys_real s : CoreV s -> Fresh s -> keys (view s) = map (key_of s) (raw_ids s).
+Lemma keys_real s : FreshV s -> keys (view s) = map (key_of s) (raw_ids s).
 Proof.
-  intros C Fr. unfold keys, raw_ids. rewrite map_map. apply map_ext_in. intros [k id] H. simpl.
-  unfold key_of. apply Fr. apply (c_cached _ C _ _ H).
+  intros Fr. unfold keys, raw_ids. rewrite map_map. apply map_ext_in. intros [k id] H. simpl.
+  unfold key_of. apply Fr. exact H.
 Qed.
 
-Lemma sorted_of_fresh s : CoreV s -> Fresh s -> view_sorted s.
+Lemma sorted_of_fresh s : CoreV s -> FreshV s -> view_sorted s.
 Proof.
   intros C Fr. unfold view_sorted, visible, in_order. pose proof (c_sorted _ C) as S. unfold ksorted in S.
-  rewrite (keys_real s C Fr) in S. destruct (reversed s).
+  rewrite (keys_real s Fr) in S. destruct (reversed s).
   - rewrite map_rev. apply (StronglySorted_rev N.le). exact S.
   - exact S.
 Qed.
@@ -144,7 +123,7 @@ Qed.
 Lemma view_exact : forall ops s, run ops init = Ok s ->
   Permutation (visible s) (filter (wanted s) (store s)).
 Proof.
-  intros ops s H. pose proof (run_M3 ops s H) as A3. apply inv_of_run in H. destruct H as [C Si F A1 A2].
+  intros ops s H. destruct (run_all ops s H) as [A3 _]. apply inv_of_run in H. destruct H as [C Si F A1 A2].
   apply NoDup_Permutation; [apply NoDup_visible, (c_nodup _ C) | apply NoDup_filter, (c_store _ C)|].
   intros id. rewrite In_visible, filter_In. split.
   - intros Hin. split.
@@ -153,9 +132,9 @@ Proof.
   - intros [Hs Hw]. apply A2; assumption.
 Qed.
 
-Lemma view_sorted_partial : forall ops s, guarded fresh_ok ops init -> run ops init = Ok s -> view_sorted s.
+Lemma view_sorted_always : forall ops s, run ops init = Ok s -> view_sorted s.
 Proof.
-  intros ops s Hg H. pose proof (run_Fresh ops s Hg H) as Fr. apply inv_of_run in H. apply sorted_of_fresh; [apply H | exact Fr].
+  intros ops s H. destruct (run_all ops s H) as [_ Fr]. apply inv_of_run in H. apply sorted_of_fresh; [apply H | exact Fr].
 Qed.
 
 Lemma focus_in_view : forall ops s, run ops init = Ok s ->
@@ -185,45 +164,8 @@ Qed.
 (* ---------- the two findings, on concrete histories ---------- *)
 Definition fl (id t z : N) (mk : bool) : flow := mkFlow id t 0 0 z [] mk.
 
-Definition hist_stale : list op :=
-  [Add (fl 0 1 2 false); Add (fl 1 2 1 false); SetOrder OSize; SetOrder OTime; Update (fl 0 1 0 false); SetOrder OSize].
-Lemma stale_refuted : exists ops s a b, run ops init = Ok s /\ reversed s = false
-  /\ visible s = [a; b] /\ (key_of s b < key_of s a)%N.
-Proof.
-  exists hist_stale. eexists. exists 1%N, 0%N. split; [vm_compute; reflexivity|].
-  vm_compute. repeat split; reflexivity.
-Qed.
-
-Lemma stale_not_sorted : exists ops s, run ops init = Ok s /\ ~ view_sorted s.
-Proof.
-  destruct stale_refuted as (ops & s & a & b & H & Hr & Hv & Hk). exists ops, s. split; [exact H|].
-  unfold view_sorted, in_order. rewrite Hv, Hr. simpl. intros S. inversion S as [|x l _ Hf]; subst.
-  inversion Hf; subst. lia.
-Qed.
-
-(* the guards are satisfiable on a non-trivial history: marked-only mode, a key change on a shown flow,
-   reversal, two flows shown *)
-Lemma guarded_cons (G : state -> op -> Prop) o t s s' :
-  G s o -> step o s = Ok s' -> guarded G t s' -> guarded G (o :: t) s.
-Proof. intros H E Hg. simpl. rewrite E. auto. Qed.
-
 Definition hist_good : list op :=
   [Add (fl 0 1 2 true); Add (fl 1 2 1 true); SetOrder OSize; ToggleMarked; Update (fl 0 1 0 true); SetReversed true].
 Lemma good_history : exists s, run hist_good init = Ok s
-  /\ guarded fresh_ok hist_good init
-  /\ visible s = [1%N; 0%N] /\ show_marked s = true /\ focus s = Some 0%N.
-Proof.
-  eexists. split; [vm_compute; reflexivity|]. split.
-  - unfold hist_good.
-    eapply guarded_cons; [exact I | vm_compute; reflexivity |].
-    eapply guarded_cons; [exact I | vm_compute; reflexivity |].
-    eapply guarded_cons; [exact I | vm_compute; reflexivity |].
-    eapply guarded_cons; [exact I | vm_compute; reflexivity |].
-    eapply guarded_cons; [| vm_compute; reflexivity |].
-    { intros _ o' k H Hne. destruct o'; vm_compute in H; try discriminate; inversion H; subst.
-      - exfalso. apply Hne. reflexivity.
-      - split; [reflexivity|]. split; [vm_compute; auto | reflexivity]. }
-    eapply guarded_cons; [exact I | vm_compute; reflexivity |].
-    exact I.
-  - vm_compute. repeat split; reflexivity.
-Qed.
+  /\ visible s = [1%N; 0%N] /\ show_marked s = true /\ focus s = Some 0%N /\ key_of s 1%N = 1%N /\ key_of s 0%N = 0%N.
+Proof. eexists. split; [vm_compute; reflexivity|]. vm_compute. repeat split; reflexivity. Qed.
